@@ -17,7 +17,7 @@ ID = "C03"
 LEVEL = "exploration"
 TIERS = {
     "quick": {"segments": 800, "wall": 150, "min_budget": 60},
-    "thorough": {"segments": 60000, "wall": 1500, "min_budget": 300},
+    "thorough": {"segments": 24000, "wall": 1500, "min_budget": 300},
 }
 SEGMENT_TIMEOUT = 600
 SAMPLE_MAXOPS = 10
